@@ -1,7 +1,7 @@
 #!/bin/sh
 # tools/seedin.sh <property> <n> [patch override]   -- imports /tmp/seed-<prop>-out/<n> into /verif/seeded/<prop>-<n>/
 # after confirming it in a scratch copy (tools/seedverify.sh), and runs the property's check against it.
-prop=$1; n=$2; src=/tmp/seed-$prop-out/$n; dst=/verif/seeded/$prop-$n
+prop=$1; n=$2; src=/tmp/${SEEDPFX:-seed}-$prop-out/$n; dst=/verif/seeded/$prop-${DSTN:-$n}
 [ -d "$src" ] || { echo "no $src"; exit 1; }
 mkdir -p "$dst"
 cp "$src"/meta.json "$dst/seed_meta.json"
